@@ -11,6 +11,8 @@ from harness import common, progen
 
 ARGS = ['0', '1', '-1', '255', '256', '32767', '-32768', '32768', '65535', '65536', '1E38', '-1E38', '1D300', '""', '"A"',
         'CHR$(0)', 'CHR$(255)', 'STRING$(255,"x")', 'A$', 'X', 'A(1)', '&HFFFF', '1.5', '-0.5', '#1', '3.4E38', '1/0',
+        '&H3C5', '&H3CF', '&H3C4', '&H3CE', '&H3D8', '&H3D9', '&H201', '&H61', '&H60', '&H3DA', '&O1 2', '&H F', '&O', '&H', '&O8',
+        '1 2', '1E', '1D+', '.', '1..2', '&HFFFFF', '&O777777', '1E39', '1D309', '-32769', '65536.5', '1!#', 'A$(1)', 'A(1,2)',
         '"C:"', '"A:X"', '"X.Y.Z"', '"\\"', '".. "', '"SCRN:"', '"KYBD:"', '"LPT1:"', '"COM1:"', '"CAS1:"', '"@:"']
 FUNCS = ['ABS', 'ASC', 'ATN', 'CDBL', 'CHR$', 'CINT', 'COS', 'CSNG', 'CVI', 'CVS', 'CVD', 'EOF', 'EXP', 'FIX', 'FRE', 'HEX$',
          'INPUT$', 'INSTR', 'INT', 'LEFT$', 'LEN', 'LOC', 'LOF', 'LOG', 'LPOS', 'MID$', 'MKI$', 'MKS$', 'MKD$', 'OCT$',
@@ -57,7 +59,7 @@ class C01(core.Check):
     GEN = ['gen_funnel']
     PROPS = 'props/C01.v'
     MODEL_IMPORTS = ['gen.Gen_funnel', 'model.Funnel']
-    QUICK_CASES = 700
+    QUICK_CASES = 520
     THOROUGH_CASES = 8000
     PARTIAL = ('proved only for the exception funnel, float_safe/FloatErrorHandler, OS error translation, TIME$/DATE$/'
                'ENVIRON validation and the PEEK preset table (plus, in C10/C14/C20, string-pointer dereference and '
@@ -95,7 +97,9 @@ class C01(core.Check):
                       ['10 ON ERROR GOTO 10', '20 RENUM 100,20', 'RUN'], ['PRINT HEX$(-70000)'],
                       ['10 DEF FNA$(X$)=LEFT$(X$+X$+X$,3)+STR$(FRE(""))', '20 X$="glob"+"al"', '30 Z$=FNA$("arg")', '40 PRINT X$', 'RUN'],
                       ['A$=LEFT$("abc"+"defghijkl",0)', 'CLEAR', 'PRINT FRE("")'],
-                      ['CHDIR "AB:X"'], ['FILES ":"']):
+                      ['CHDIR "AB:X"'], ['FILES ":"'], ['OUT &H3C5,1'], ['OUT &H3CF,1'], ['PRINT &O1 2'],
+                      ['SCREEN 1', 'VIEW (10,10)-(50,50)', 'SCREEN 1,,0,0'], ['KEY ON', 'LOCATE 1,60', 'WIDTH 40'],
+                      ['SCREEN 1', 'VIEW (100,100)-(200,150)', 'PRINT POINT(300,10)'], ['SCREEN 1', 'DRAW "C256 U5"']):
             c.append({'k': 'prog', 'lines': lines, 'default': True})
         c.append({'k': 'file', 'bytes': [0xfe], 'name': 'X'})
         c.append({'k': 'file', 'bytes': [0xfe, 0x1a], 'name': 'X'})
@@ -142,6 +146,18 @@ class C01(core.Check):
     FAULT = ['ERROR 5', 'ERROR 255', 'ERROR 0', 'PRINT 1/0', 'A=SQR(-1)', 'DIM A(-1)', 'GOTO 9999', 'NEXT', 'RETURN', 'WEND',
              'X$=MID$("",0)', 'A%=32768', 'PRINT CHR$(256)', 'OPEN "NOSUCH" FOR INPUT AS 1', 'READ Q', 'RESUME', 'FIELD #1,1 AS A$',
              'PRINT USING "";1', 'LOCATE 99', 'KILL "NOSUCH"', 'PRINT 1E38*1E38', 'DEF FNA(X)=X', 'X=FNQ(1)', 'CONT', 'STOP']
+    GFX_HIST = ['SCREEN 1', 'SCREEN 2', 'SCREEN 7', 'SCREEN 9', 'SCREEN 0', 'SCREEN 1,,0,0', 'SCREEN 7,,1,0', 'SCREEN 7,,0,1', 'SCREEN ,,1,1',
+                'SCREEN ,,0,0', 'VIEW (10,10)-(50,50)', 'VIEW SCREEN (1,1)-(5,5),1,2', 'VIEW', 'WINDOW (0,0)-(1,1)', 'WINDOW SCREEN (-1,-1)-(1,1)',
+                'WINDOW', 'PCOPY 1,0', 'PCOPY 0,1', 'WIDTH 40', 'WIDTH 80', 'KEY ON', 'KEY OFF', 'CLS', 'PSET (5,5)', 'LINE (0,0)-(400,300),1,BF',
+                'CIRCLE (20,20),500', 'PAINT (1,1)', 'PRINT POINT(300,10)', 'GET (0,0)-(5,5),A', 'PUT (0,0),A', 'DIM A(100)', 'DRAW "C1U5"',
+                'LOCATE 25,1', 'LOCATE 1,60', 'VIEW PRINT 2 TO 5', 'VIEW PRINT', 'OUT &H3C5,1', 'OUT &H3CF,2', 'OUT &H3D8,0', 'DEF SEG=&HB800:POKE 0,65',
+                'DEF SEG=&HA000:POKE 100,255', 'PRINT PEEK(0)', 'BSAVE "V",0,100', 'BLOAD "V"', 'PALETTE 1,2', 'COLOR 1,2,3', 'PRINT PMAP(1,0)']
+
+    def gfx_history(self):
+        """display histories: mode / page / viewport / window changes interleaved with drawing and memory access"""
+        rng = self.rng
+        return [rng.choice(self.GFX_HIST) for _ in range(rng.randrange(2, 8))]
+
     AFTER = ['CONT', 'RUN', 'LIST', 'PRINT ERR;ERL', 'RESUME', 'RESUME NEXT', 'EDIT 20', 'NEW', 'RENUM', 'GOTO 100', 'RETURN', 'STOP']
 
     def scenario(self):
@@ -175,6 +191,9 @@ class C01(core.Check):
             elif r < 0.2:
                 out.append({'k': 'prog', 'lines': self.scenario(), 'default': rng.random() < 0.5})
                 hist['scenario'] = hist.get('scenario', 0) + 1
+            elif r < 0.3:
+                out.append({'k': 'prog', 'lines': self.gfx_history(), 'default': False, 'video': rng.choice(['vga', 'ega', 'cga', 'tandy', 'hercules', 'mda', 'pcjr'])})
+                hist['gfx_history'] = hist.get('gfx_history', 0) + 1
             elif r < 0.6:
                 out.append({'k': 'prog', 'lines': [self.stmt() for _ in range(rng.randrange(1, 5))], 'default': rng.random() < 0.5})
                 hist['direct'] += 1
@@ -287,6 +306,8 @@ class C01(core.Check):
         os.makedirs(d)
         saved_env = dict(os.environ)
         kw = {} if case.get('default') else {'devices': {'C': d}, 'current_device': 'C:'}
+        if case.get('video'):
+            kw['video'] = case['video']
         s = common.new_session(**kw)
         self._ran_ok = 0
         try:
